@@ -530,6 +530,11 @@ class SOMEIPSDEntry:
         oi2 = typing.cast(int, self.option_index_2)
         no1 = typing.cast(int, self.num_options_1)
         no2 = typing.cast(int, self.num_options_2)
+        if not (0 <= no1 <= 0x0F and 0 <= no2 <= 0x0F):
+            # both counts share one byte: a bigger count would spill into the other
+            raise struct.error(
+                f"number of options per run must be in 0..15, got {no1} and {no2}"
+            )
         return self.__format.pack(
             self.sd_type.value,
             oi1,
